@@ -1,6 +1,8 @@
 """C04 — PRBS emits the maximal-length sequence of its ITU polynomial and can be resumed."""
 import warnings
 
+import numpy as np
+
 from harness.common.wire import enc_opt_int, exc_enum
 from harness.common.watchdog import time_limit, Timeout
 
@@ -63,7 +65,11 @@ def _call(order, length, seed):
         warnings.simplefilter("always")
         out, st = PRBS(order, length, seed, return_seed=True)
     warned = any(issubclass(x.category, UserWarning) and "seed" in str(x.message).lower() for x in w)
-    return [int(b) for b in out.data], int(st), warned, type(out).__name__, str(out.data.dtype)
+    data = np.asarray(out.data)
+    # the container's own contract (1-D uint8 of the requested length) is part of what "emits the sequence" means: a
+    # (1,1)-shaped one-bit result cannot be concatenated with the next chunk
+    shape_tag = "" if data.ndim == 1 else f"|shape={list(data.shape)}"
+    return [int(b) for b in data.ravel()], int(st), warned, type(out).__name__, str(data.dtype) + shape_tag
 
 
 def gen_cases(rng, tier):
